@@ -206,6 +206,20 @@ def check_stores(ctx, spec, fn, sname, binding, rule='L2'):
                 if cb is not b and any(unwrap_value(a)[0][0] == 'param' for a in alts(ft)):
                     # a helper's own parameter: judged where the helper is inlined into the decoder
                     continue
+                inline_match = False
+                if via is not None and fx.body(via) is None and all(a[0] == 'agg' and a[2] is not None and not a[3] for a in alts(ft)):
+                    # the value decoder has been written inline: the variants are built under a `match` on the bound read
+                    for sw in q.switches_on(cb, lambda d: True):
+                        inner_, bad_ = unwrap_value(q.switch_cond(cb, sw))
+                        if is_read_term(inner_) and binding.get(inner_[3]) == (struct, node[1]) and not bad_:
+                            inline_match = True
+                if inline_match:
+                    matched += 1
+                    n += 1
+                    ctx.inst(rule, '%s <- %s.%s' % (st, struct, node[1]), True,
+                             'stored field %s in %s: one of %s chosen by a match on the read %s (value table judged by C15)'
+                             % (s, cb.name.split('asefile::')[-1], sorted(a[2] for a in alts(ft)), node[1]), span, key=ctx.key(fn, rule, st, ''))
+                    continue
                 for a in alts(ft):
                     if a[0] == 'agg' and a[2] == 'None':
                         continue
